@@ -114,6 +114,12 @@ def run(ctx):
         ev1 = len(provider.fields['event'].fields['items'].items)
         if r is True:
             p.oblige('%s#one-event-per-frame' % label, z3.BoolVal(ev1 == ev0 + 1), kind='ensures', assume_after=False)
+            # progress: a frame that produced an event has left the buffer (variant of the loop that
+            # drains buffered input; otherwise the same bytes are framed again for ever)
+            from ..values import bytes_term
+            after = provider.fields['raw_pdu']
+            p.oblige('%s#frame-leaves-the-buffer' % label,
+                     z3.Length(bytes_term(after)) < z3.Length(bytes_term(buf)), kind='variant', assume_after=False)
         else:
             p.oblige('%s#no-event-without-frame' % label, z3.BoolVal(ev1 == ev0), kind='ensures', assume_after=False)
         p.outcome = 'normal'
